@@ -13,6 +13,7 @@ import (
 
 	"pgregory.net/rapid"
 
+	"verif/harness/gen"
 	"verif/harness/oracle"
 	"verif/harness/world"
 )
@@ -236,6 +237,7 @@ func RunCheck(t *testing.T, c Check) {
 	}
 	rapid.Check(t, func(rt *rapid.T) {
 		sc := c.Gen(rt)
+		gen.MaybeLogger(rt, sc)
 		if bad := r.judge(t, sc, true); len(bad) > 0 {
 			rt.Fatalf("%s", bad[0].String())
 		}
